@@ -248,9 +248,10 @@ static vf::Result run_case(const Case &c, Info *info)
 		// status reports seen during the event
 		std::map<int, std::vector<int>> reported;
 		std::set<int> started, stopped_prefs;
+		std::set<struct rtr_socket *> started_socks;
 		for (auto &e : g_log) {
 			if (e.kind == 0) reported[e.pref].push_back(e.status);
-			if (e.kind == 1) started.insert(e.pref);
+			if (e.kind == 1) { started.insert(e.pref); started_socks.insert(e.sock); }
 			if (e.kind == 2) stopped_prefs.insert(e.pref);
 		}
 		if (p.kind != 'E') continue;
@@ -285,6 +286,10 @@ static vf::Result run_case(const Case &c, Info *info)
 				int best = -1;
 				for (auto &g : before) if (g.pref != cause_pref && g.status == RTR_MGR_CLOSED && (best < 0 || g.pref < best)) best = g.pref;
 				if (best >= 0) {
+					for (auto &g : before)
+						if (g.pref == best && started.count(best))
+							for (auto *sk : g.socks)
+								if (!started_socks.count(sk)) FAIL("C15:group-only-partly-started", "group " + std::to_string(best) + " was started on failover, but not all of its " + std::to_string(g.socks.size()) + " sockets were (" + tag + ")");
 					if (!started.count(best)) FAIL("C15:no-failover-start", "group " + std::to_string(cause_pref) + " entered ERROR with no group ESTABLISHED, but the most preferred closed group " + std::to_string(best) + " was not started (" + tag + ")");
 					error_start_seen = true;
 				}
